@@ -370,9 +370,37 @@ pub fn run_recv(args: &[String]) -> i32 {
             let via_read_half = sc["via_read_half"].as_bool().unwrap_or(false);
             // the whole byte stream, written in pieces of `cut` bytes (0 = frame by frame)
             let mut stream: Vec<u8> = Vec::new();
+            // "soak": before the scenario's frames the peer sends, `soak` times over, every proper prefix of every one of them as
+            // a frame of its own (malformed frames of every shape the messages can be cut into); what those yield is not recorded
+            let soak = sc["soak"].as_u64().unwrap_or(0);
+            let mut n_junk = 0usize;
+            for _ in 0..soak {
+                for f in frames.iter() {
+                    for k in 1..f.len() {
+                        stream.extend_from_slice(&(k as u32).to_be_bytes());
+                        stream.extend_from_slice(&f[..k]);
+                        n_junk += 1;
+                    }
+                }
+            }
             for f in frames.iter() {
                 stream.extend_from_slice(&(f.len() as u32).to_be_bytes());
                 stream.extend_from_slice(f);
+            }
+            // after a soak one more well-formed message: a SEND whose payload nests 250 lists deep (within what the decoder accepts)
+            let deep_payload = {
+                let mut t = OwnedTerm::Nil;
+                for _ in 0..250 {
+                    t = OwnedTerm::List(vec![t]);
+                }
+                t
+            };
+            if soak > 0 {
+                let ctl = OwnedTerm::Tuple(vec![OwnedTerm::Integer(2), OwnedTerm::Atom(Atom::new("")),
+                                                OwnedTerm::Pid(erltf::types::ExternalPid::new(Atom::new("n1@127.0.0.1"), 9, 0, 77))]);
+                let f = if header_mode { erltf::encode_with_dist_header_multi(&[&ctl, &deep_payload]).unwrap_or_default() } else { pass_through(&ctl, Some(&deep_payload)) };
+                stream.extend_from_slice(&(f.len() as u32).to_be_bytes());
+                stream.extend_from_slice(&f);
             }
             let mut wr = cp.peer.wr;
             // "slow": the peer idles for 60 % of the receiver's read timeout, sends the length prefix of the first frame alone,
@@ -407,7 +435,7 @@ pub fn run_recv(args: &[String]) -> i32 {
             let n_frames = frames.len();
             let reader = tokio::spawn(async move {
                 let mut rh = if via_read_half { conn.take_read_half() } else { None };
-                for _ in 0..(n_frames + 2) {
+                for call in 0..(n_junk + n_frames + 3) {
                     let r = match rh.as_mut() {
                         Some(h) => Connection::receive_message_from_read_half(h, Duration::from_millis(if slow { 1000 } else { 300 })).await,
                         // (the outer limit is the harness' own patience, not a read timeout of the library)
@@ -419,6 +447,15 @@ pub fn run_recv(args: &[String]) -> i32 {
                             }
                         },
                     };
+                    if n_junk > 0 {
+                        // soak: how many results the malformed frames yield is not fixed (a prefix may be a complete message, a
+                        // tick, a fragment); everything is read to the end of the stream and only the tail is kept
+                        let _ = call;
+                        let mut g = r2.lock().unwrap();
+                        if g.len() > n_frames + 8 {
+                            g.remove(0);
+                        }
+                    }
                     match r {
                         Ok((ctl, msg)) => r2.lock().unwrap().push(json!({"k": "msg", "control": denote(&ctl.to_term()), "payload": msg.as_ref().map(denote)})),
                         Err(e) => {
@@ -435,7 +472,17 @@ pub fn run_recv(args: &[String]) -> i32 {
             let joined = reader.await;
             writer.abort();
             let panicked = joined.is_err();
-            w.put(&json!({"id": sc["id"], "results": results.lock().unwrap().clone(), "panicked": panicked}));
+            let mut res = results.lock().unwrap().clone();
+            let mut deep_delivered = Value::Null;
+            if soak > 0 {
+                // the last message-or-error result belongs to the deep message
+                let last = res.iter().rposition(|r| r["k"] == "msg" || r["k"] == "err");
+                deep_delivered = json!(last.map(|i| res[i]["k"] == "msg" && res[i]["payload"] == denote(&deep_payload)).unwrap_or(false));
+                if let Some(i) = last {
+                    res.remove(i);
+                }
+            }
+            w.put(&json!({"id": sc["id"], "results": res, "panicked": panicked, "deep_delivered": deep_delivered}));
         }
     });
     w.finish();
